@@ -1,8 +1,11 @@
 package simrt
 
 import (
+	"fmt"
+	"os"
 	"reflect"
 	"sort"
+	"unsafe"
 )
 
 // Labeler may be implemented by pointer-like map keys to give them a run-independent name.
@@ -17,25 +20,44 @@ func Keys[M ~map[K]V, K comparable, V any](m M) []K {
 	for k := range m {
 		keys = append(keys, k)
 	}
-	s := cur.Load()
-	if s == nil || len(keys) < 2 {
-		if s != nil {
-			s.mu.Lock()
-			s.stats.MapIterations++
-			s.mu.Unlock()
-		}
+	// Everything that touches simulator state lives in the non-generic orderKeys: this generic
+	// body is compiled into the (race-instrumented) calling package.
+	if len(keys) < 2 {
+		orderKeys(nil)
 		return keys
 	}
 	vals := make([]reflect.Value, len(keys))
 	for i := range keys {
 		vals[i] = reflect.ValueOf(&keys[i]).Elem()
 	}
+	idx := orderKeys(vals)
+	if idx == nil {
+		return keys
+	}
+	out := make([]K, len(keys))
+	for i, j := range idx {
+		out[i] = keys[j]
+	}
+	return out
+}
+
+// orderKeys returns the permutation in which the keys are to be visited (nil: as they are).
+func orderKeys(vals []reflect.Value) []int {
+	s := cur.Load()
+	if s == nil || len(vals) < 2 {
+		if s != nil {
+			s.mu.Lock()
+			s.stats.MapIterations++
+			s.mu.Unlock()
+		}
+		return nil
+	}
 	s.mu.Lock()
 	defer s.mu.Unlock()
 	s.stats.MapIterations++
 	// register unseen pointers first, in a canonical sub-order where one exists
 	s.registerPointersLocked(vals)
-	idx := make([]int, len(keys))
+	idx := make([]int, len(vals))
 	for i := range idx {
 		idx[i] = i
 	}
@@ -47,11 +69,7 @@ func Keys[M ~map[K]V, K comparable, V any](m M) []K {
 			idx[i], idx[j] = idx[j], idx[i]
 		}
 	}
-	out := make([]K, len(keys))
-	for i, j := range idx {
-		out[i] = keys[j]
-	}
-	return out
+	return idx
 }
 
 // LabelPointer gives p (a pointer) a stable registry id now, so that later map
@@ -69,6 +87,18 @@ func LabelPointer(p any) {
 	s.mu.Lock()
 	defer s.mu.Unlock()
 	s.ptrIDLocked(v, true)
+}
+
+// ifaceOf returns the value as an interface, also for unexported struct fields of an
+// addressable key (read-only use).
+func ifaceOf(v reflect.Value) (any, bool) {
+	if v.CanInterface() {
+		return v.Interface(), true
+	}
+	if v.CanAddr() {
+		return reflect.NewAt(v.Type(), unsafe.Pointer(v.UnsafeAddr())).Elem().Interface(), true
+	}
+	return nil, false
 }
 
 func isPointerKind(k reflect.Kind) bool {
@@ -89,16 +119,16 @@ func (s *Sim) ptrIDLocked(v reflect.Value, create bool) uint64 {
 	if addr == 0 {
 		return 0
 	}
-	if id, ok := s.ptrIDs[addr]; ok {
+	if id, ok := s.ptrIDs.get(addr); ok {
 		return id
 	}
 	if !create {
 		return 0
 	}
 	s.nextPtr++
-	s.ptrIDs[addr] = s.nextPtr
-	if v.CanInterface() {
-		s.keep = append(s.keep, v.Interface())
+	s.ptrIDs.put(addr, s.nextPtr)
+	if x, ok := ifaceOf(v); ok {
+		s.keep = append(s.keep, x)
 	}
 	return s.nextPtr
 }
@@ -143,8 +173,8 @@ func (s *Sim) registerPointersLocked(vals []reflect.Value) {
 		labels := make([]string, len(fresh))
 		all := true
 		for i, v := range fresh {
-			if v.CanInterface() {
-				if l, ok := v.Interface().(Labeler); ok {
+			if x, ok := ifaceOf(v); ok {
+				if l, ok := x.(Labeler); ok {
 					labels[i] = v.Type().String() + "/" + l.VerifLabel()
 					continue
 				}
@@ -175,6 +205,9 @@ func (s *Sim) registerPointersLocked(vals []reflect.Value) {
 		}
 		if amb {
 			s.stats.AmbiguousKeys++
+			if os.Getenv("VERIF_DEBUG_AMBIGUOUS") != "" {
+				fmt.Fprintf(os.Stderr, "ambiguous map keys (%s) at %s\n", labels[order[0]], callerSite(4))
+			}
 		}
 		sorted := make([]reflect.Value, len(fresh))
 		for i, j := range order {
